@@ -105,6 +105,7 @@ Inductive err :=
 | ENotIterable         (* TypeError: object is not iterable *)
 | EValueBrackets       (* ValueError: Syntactically illegal bracket string *)
 | EWrapper             (* HyWrapperError: don't know how to wrap *)
+| ECycle               (* HyWrapperError: self-referential structure detected *)
 | EUnmodelled.         (* a call the model does not cover (never produced by render) *)
 
 Inductive res (A : Type) := Ok (a : A) | Err (e : err).
